@@ -24,7 +24,7 @@ PKG = os.path.join(REPO, 'bitstring')
 OPTION_NAMES = {'lsb0', 'bytealigned', 'mxfp_overflow', 'no_color', '_lsb0', '_bytealigned', '_mxfp_overflow'}
 META = {'explanation': 'Read-effect (frame) contracts over the AST call graph decide purity of every memoised function; '
                        'a bounded run-time interleaving test cross-checks the analysis.'}
-EXTRA_TASKS = ['effects', 'dispatch_tables', 'cached_values_not_mutated', 'runtime_crosscheck']
+EXTRA_TASKS = ['effects', 'dispatch_tables', 'cached_values_not_mutated', 'cached_stores_flagged', 'runtime_crosscheck']
 # 'what was later done to previously returned objects': the ownership contracts (a cached store never reaches a mutable owner)
 ALSO_PROPS = ['C04', 'C01', 'C16', 'C03', 'C05', 'C10']   # every contract whose ownership clause can see a memoised store being adopted or changed
 
@@ -428,6 +428,67 @@ clear_all()
 cold = outcome(lambda: bitstring.pack('uint:8', 5).bin)
 FAILS = first != again or single != cold
 '''
+
+
+_EMPTYSTR_DEMO = _COLD + '''
+from bitstring import BitArray, Bits
+FAILS = False
+for s in ('', ' ', ',', '0b', '0x'):
+    clear_all()
+    try:
+        a = BitArray(s)
+        a.append('0b1')
+        FAILS = FAILS or Bits(s).bin != '' or BitArray(s).bin != ''
+    except Exception:
+        pass
+'''
+
+
+def cached_stores_flagged(tier='quick', seed=0):
+    """E6: a memoised function that returns a BitStore returns it flagged immutable on *every* return path (a mutable bitstring
+    copies a flagged store before changing it; an unflagged one would be adopted and the cache entry changed in place).  Static,
+    all paths: every `return` of such a function returns a local name for which `<name>.immutable = True` is assigned earlier in the
+    same or an enclosing block of the function body."""
+    fns, by_name, trees = load()
+    obligations = []
+    for q, g in sorted(fns.items()):
+        if not g.cached:
+            continue
+        ann = ast.unparse(g.node.returns) if g.node.returns is not None else ''
+        if 'BitStore' not in ann:
+            continue
+        bad = []
+
+        def walk(stmts, flagged):
+            flagged = set(flagged)
+            for st in stmts:
+                if isinstance(st, ast.Assign) and len(st.targets) == 1 and isinstance(st.targets[0], ast.Attribute) and st.targets[0].attr == 'immutable' \
+                        and isinstance(st.targets[0].value, ast.Name) and isinstance(st.value, ast.Constant) and st.value.value is True:
+                    flagged.add(st.targets[0].value.id)
+                elif isinstance(st, ast.Assign):
+                    for t in st.targets:
+                        if isinstance(t, ast.Name):
+                            flagged.discard(t.id)          # re-bound: the flag belonged to the old object
+                elif isinstance(st, ast.Return):
+                    v = st.value
+                    ok = isinstance(v, ast.Name) and v.id in flagged
+                    ok = ok or (isinstance(v, ast.Call) and any(k.arg == 'immutable' and isinstance(k.value, ast.Constant) and k.value.value is True for k in v.keywords))
+                    if not ok:
+                        bad.append((st.lineno, ast.unparse(st)))
+                for fld in ('body', 'orelse', 'finalbody'):
+                    sub = getattr(st, fld, None)
+                    if isinstance(sub, list) and sub and isinstance(sub[0], ast.stmt):
+                        walk(sub, flagged)
+                for h in getattr(st, 'handlers', []) or []:
+                    walk(h.body, flagged)
+        walk(g.node.body, set())
+        ob = {'id': f'C09/{q}/E6-memoised-store-is-flagged-immutable-on-every-return-path', 'backend': 'static', 'kind': 'public', 'qualname': q, 'clause': 'E6',
+              'shape': 'all-paths', 'verdict': 'proved' if not bad else 'refuted'}
+        if bad:
+            ob['witness'] = {'reproduced': _run_demo(_EMPTYSTR_DEMO), 'python': _EMPTYSTR_DEMO, 'qualname': q, 'shape': 'all-paths', 'inputs': {'returns': bad[:3]}}
+        obligations.append(ob)
+    return {'id': 'C09.flagged', 'obligations': obligations, 'functions': sorted({o['qualname'] for o in obligations}),
+            'summary': f'{len(obligations)} memoised functions return a BitStore'}
 
 
 def runtime_crosscheck(tier='quick', seed=0):
